@@ -6,6 +6,8 @@ from vf import Case
 ID = "C20"
 DRIVER = "drv_sx"
 HARNESS = "h_sx"
+QUICK_LEVEL = "thorough"      # the larger case set costs only seconds
+THOROUGH_SEEDS = 5
 RULE = ("all trees up to depth 3 / 5 nodes (thorough: depth 4 / 6 nodes) over a small vocabulary of symbols and integers, rendered with "
         "several whitespace policies (single blank, none where legal, tabs/newlines, leading and trailing blanks) and decimal / lower- / "
         "upper-case hexadecimal integers; every string up to length 5 (thorough 6) over the alphabet `( ) a 1 # x F space - {`; truncations "
